@@ -53,6 +53,17 @@ type NodeOpts struct {
 	// CustomPayload: the chain signs something other than the raw header bytes (a supported
 	// configuration: ManagerOptions.SignaturePayloadProvider).
 	CustomPayload bool
+	// RefExec: the execution layer is the REAL reference KVExecutor (apps/testapp) on a namespace of the
+	// node's datastore instead of the hash-fold double; transactions must then be KVTx-shaped.
+	RefExec bool
+}
+
+// NextRoot returns the reference model of the execution layer's state transition the options select.
+func (o NodeOpts) NextRoot() func(prev []byte, txs [][]byte) []byte {
+	if o.RefExec {
+		return KVNextRoot
+	}
+	return NextRoot
 }
 
 // CustomPayloadProvider is the non-default signature payload used when NodeOpts.CustomPayload is set.
@@ -164,7 +175,7 @@ func (n *Node) Spec(genesisRoot []byte, txsOf func(uint64) ([][]byte, bool), atR
 	return ChainSpec{
 		Store: n.Store, Genesis: n.Genesis, PubKey: n.PubKey, GenesisRoot: genesisRoot,
 		TxsOf: txsOf, Validate: n.validate, AtRest: atRest, Payload: n.Opts.Payload(),
-		EmptyDataHash: block.VerifDataHashForEmptyTxs(),
+		EmptyDataHash: block.VerifDataHashForEmptyTxs(), NextRoot: n.Opts.NextRoot(), DataLink: n.Opts.Aggregator,
 	}
 }
 
